@@ -332,7 +332,7 @@ func runC13(r *Rng, n int, replay string) {
 		sr := newStepReader(ar.data, cut, ferr)
 		dest := &failingDest{fs: newMem().(*mem.FS), failAt: -1, pause: make(chan struct{}, 1024)}
 		if mode == "destfail" {
-			dest.failAt = int64(r.Intn(2 * len(ar.entries)+2))
+			dest.failAt = int64(r.Intn(2*len(ar.entries) + 2))
 		}
 		ctx, cancel := context.WithCancel(context.Background())
 		tfs, err := hptar.NewReaderFS(ctx, sr, hptar.ReaderFSOptions{UnarchiveFS: dest})
